@@ -863,6 +863,8 @@ func C15(c *mon.Ctx) {
 		cr.check(cp, w.RandSub("data"))
 	})
 
+	c15NearMiss(c)
+
 	c15Corpus(c)
 }
 
